@@ -5,19 +5,34 @@ EXTENDS WsConc
 T == TRUE
 F == FALSE
 
+\* a program without a reader whose application never pauses inside a message
+NoHold(msgs) == [m \in 1..Len(msgs) |-> [f \in 1..Len(msgs[m]) |-> 0]]
+P(msgs, ctl, closer) == [msgs |-> msgs, hold |-> NoHold(msgs), ctl |-> ctl, rd |-> <<>>, closer |-> closer]
+
 \* 1 writer x 3 frames (one with `extra`) in 2 messages x ping sender x close sender x closer
-McMain == [msgs |-> << <<T, F>>, <<F>> >>, ctl |-> << <<"ping">>, <<"close">> >>, closer |-> TRUE]
+McMain == P(<< <<T, F>>, <<F>> >>, << <<"ping">>, <<"close">> >>, TRUE)
 
 \* two calls per control sender, close in the middle of a sender's program, no closer
-McTwoCalls == [msgs |-> << <<T>>, <<F>> >>, ctl |-> << <<"ping", "pong">>, <<"close", "ping">> >>, closer |-> FALSE]
+McTwoCalls == P(<< <<T>>, <<F>> >>, << <<"ping", "pong">>, <<"close", "ping">> >>, FALSE)
 
 \* two close senders and a closer
-McTwoClose == [msgs |-> << <<T, T, F>> >>, ctl |-> << <<"close">>, <<"close">> >>, closer |-> TRUE]
+McTwoClose == P(<< <<T, T, F>> >>, << <<"close">>, <<"close">> >>, TRUE)
 
 \* control writes with a short deadline: they may give up waiting for the lock
-McTimeout    == [msgs |-> << <<T, F>> >>, ctl |-> << <<"ping~", "pong~">>, <<"close">> >>, closer |-> TRUE]
-McTimeoutBig == [msgs |-> << <<T, F>>, <<F>> >>, ctl |-> << <<"ping~", "pong~">>, <<"ping">>, <<"close~">> >>, closer |-> TRUE]
+McTimeout    == P(<< <<T, F>> >>, << <<"ping~", "pong~">>, <<"close">> >>, TRUE)
+McTimeoutBig == P(<< <<T, F>>, <<F>> >>, << <<"ping~", "pong~">>, <<"ping">>, <<"close~">> >>, TRUE)
 
 \* thorough: longer data program, three control senders
-McBig == [msgs |-> << <<T, F>>, <<T>>, <<F, F>> >>, ctl |-> << <<"ping">>, <<"close">>, <<"pong">> >>, closer |-> TRUE]
+McBig == P(<< <<T, F>>, <<T>>, <<F, F>> >>, << <<"ping">>, <<"close">>, <<"pong">> >>, TRUE)
+
+\* the reader: the peer's Ping (default handler) and Close (application's handler) arrive at any point, the
+\* application of D pauses before either frame of its first message (bytes buffered / between two frames)
+McReader == [msgs |-> << <<T, F>> >>, hold |-> << <<1, 1>> >>,
+             ctl |-> << <<"ping">> >>, rd |-> <<"pong@", "close">>, closer |-> TRUE]
+McReaderBig == [msgs |-> << <<T, F>>, <<F>> >>, hold |-> << <<1, 1>>, <<0>> >>,
+                ctl |-> << <<"ping">> >>, rd |-> <<"pong@", "close">>, closer |-> TRUE]
+\* both kinds of handler, the peer's Close echoed by the default close handler, a close sender of the
+\* application, two pauses before the first flush
+McReader2 == [msgs |-> << <<T, F>> >>, hold |-> << <<2, 1>> >>,
+              ctl |-> << <<"close">> >>, rd |-> <<"pong", "pong@", "close@">>, closer |-> FALSE]
 =============================================================================
